@@ -331,14 +331,14 @@ except BaseException as e:
 def targets(tier):
     ts = []
     f = "mypy.constant_fold:constant_fold_binary_int_op"
-    ts.append(Target("fold.binary_int_op", f, setup_binary([TInt(), TBool()], [TInt(), TBool()]), ensures=[("value-is-python-operator", ens_binary)], raises=(), replay=replay_binary(f)))
+    ts.append(Target("fold.binary_int_op", f, setup_binary([TInt(), TBool()], [TInt(), TBool()]), ensures=[("value-is-python-operator", ens_binary)], raises=()))
     f = "mypy.constant_fold:constant_fold_binary_float_op"
-    ts.append(Target("fold.binary_float_op", f, setup_float, ensures=[("value-is-python-operator", ens_binary)], raises=(), replay=replay_binary(f)))
+    ts.append(Target("fold.binary_float_op", f, setup_float, ensures=[("value-is-python-operator", ens_binary)], raises=()))
     f = "mypy.constant_fold:constant_fold_binary_op"
-    ts.append(Target("fold.binary_op", f, setup_binary(CONST_KINDS, CONST_KINDS), ensures=[("value-is-python-operator", ens_binary)], raises=(), replay=replay_binary(f)))
+    ts.append(Target("fold.binary_op", f, setup_binary(CONST_KINDS, CONST_KINDS), ensures=[("value-is-python-operator", ens_binary)], raises=()))
     f = "mypy.constant_fold:constant_fold_unary_op"
     ts.append(Target("fold.unary_op", f, setup_unary, ensures=[("value-is-python-operator", ens_unary)], raises=()))
     f = "mypyc.irbuild.constant_fold:constant_fold_binary_op_extended"
     ext = CONST_KINDS + [TBytes()]
-    ts.append(Target("fold.mypyc.binary_op_extended", f, setup_binary(ext, ext), ensures=[("value-is-python-operator", ens_binary)], raises=(), replay=replay_binary(f)))
+    ts.append(Target("fold.mypyc.binary_op_extended", f, setup_binary(ext, ext), ensures=[("value-is-python-operator", ens_binary)], raises=()))
     return ts
